@@ -148,6 +148,15 @@ int main(int argc, char** argv) {
   // extremes of the int8 exponent range
   const int ext[] = {-128, -100, -10, -9, 9, 10, 99, 100, 127};
   for (int e : ext) for (int i = 0; i < 7; i++) { D7 d{0, 0, 0, 0, 0, 0, 0}; d[i] = e; do_print(d, true); do_serial(d, true); D7 z{0, 0, 0, 0, 0, 0, 0}; do_cmp(d, z, true); do_cmp(z, d, true); }
+  // default construction is the dimensionless set; the seven base-dimension classes compare, hash, print and stream as their exponent
+  { D7 z{0, 0, 0, 0, 0, 0, 0}; Dimensions d0; Dimensions dz = mk(z); bool def_ok = d0 == dz && !(d0 != dz) && d0.Print() == dz.Print() && std::hash<Dimensions>()(d0) == std::hash<Dimensions>()(dz);
+    long bad = 0, cnt = 0;
+    auto base = [&](auto tag) { using B = decltype(tag); B def; if (def.Value() != 0) bad++;
+      for (int x = -3; x <= 3; x++) for (int y = -3; y <= 3; y++) { B a{(int8_t)x}, b{(int8_t)y}; cnt++;
+        if ((a == b) != (x == y) || (a != b) != (x != y) || (a < b) != (x < y) || (a > b) != (x > y) || (a <= b) != (x <= y) || (a >= b) != (x >= y)) bad++;
+        if (x == y && std::hash<B>()(a) != std::hash<B>()(b)) bad++; std::ostringstream os; os << a; if (os.str() != a.Print()) bad++; if (a.Value() != x) bad++; } };
+    base(Dimension::Time{}); base(Dimension::Length{}); base(Dimension::Mass{}); base(Dimension::ElectricCurrent{}); base(Dimension::Temperature{}); base(Dimension::SubstanceAmount{}); base(Dimension::LuminousIntensity{});
+    printf("{\"e\":\"DimBase\",\"default_is_dimensionless\":%d,\"pairs\":%ld,\"bad\":%ld}\n", (int)def_ok, cnt, bad); }
   printf("{\"e\":\"DimSummary\",\"box\":%d,\"prints\":%ld,\"cmps\":%ld,\"ref_mismatch_print\":%ld,\"ref_mismatch_cmp\":%ld,\"emitted\":%ld,\"serials\":%ld,\"hash_sensitive\":[%d,%d,%d,%d,%d,%d,%d]}\n",
          R, n_print, n_cmp, mm_print, mm_cmp, emitted, n_serial, sens[0], sens[1], sens[2], sens[3], sens[4], sens[5], sens[6]);
   return 0;
